@@ -133,6 +133,9 @@ def init_post(prog: Program, has_pre: bool):
     def hook(node, fr, it):
         fn = unparse(node.func)
         if fn == "max" and len(node.args) == 1:
+            dflt = [k.value for k in node.keywords if k.arg == "default"]
+            if dflt and not has_pre:
+                return it.eval(dflt[0], fr)  # max(<no frame before the start>, default=d) = d
             return NF.atom("p")
         if fn == "super().__init__":
             return None
@@ -351,8 +354,10 @@ def fractional(prog: Program, rep: Report) -> None:
     # fractions used by the schemes
     fracs = set()
     tr = prog.module("tracker")
+    from ..program import unroll_literal_loops
+
     for fi in tr.functions.values():
-        for node in walk_no_nested(fi.node):
+        for node in walk_no_nested(unroll_literal_loops(fi.node)):  # `for frac in (0.5, 0.5, 1.0): ...velocity(fractional_step=frac)`
             if isinstance(node, ast.Call) and isinstance(node.func, ast.Attribute) and node.func.attr == "velocity":
                 for kw in node.keywords:
                     if kw.arg == "fractional_step":
